@@ -550,7 +550,7 @@ def rule_lazy(ctx):
                 ctx.seen(f)
     ctx.counts[rid + ".static-mut"] = n_mut
     ctx.counts[rid + ".memo-tables"] = n_memo
-    ctx.floor(rid + ".static-mut-accesses", 2)
+    ctx.floor(rid + ".static-mut-accesses", 1)
 
 
 def rule_scratch(ctx):
